@@ -420,7 +420,7 @@ int main(int argc, char **argv)
     vp::bound("options", "linelength {10,20,40,80,120} x precision {0,2,9} x compress {0,1}, lossless=true, sep=' ' (30 sets); whole messages behind /a and /a/b0 with " + std::string(T ? "4" : "2") + " rotating option sets per list");
     vp::bound("value_alphabet_V", (long long)V.size());
     vp::bound("lists_plain", "all lists of length 0..2 over V; all of length 3 over " + std::string(T ? "V; all of length 4 over a 22-value sub-alphabet" : "a 22-value sub-alphabet") + "; lists of length 4..12 per type and mixed (cyclic, no accidental runs)");
-    vp::bound("runs", "prefix in sub-alphabet+none x run{i h c f d: delta 0,1,-1,3; T F: constant, alternating; s S constant" + std::string(T ? "; r N constant; starts 0, -2, type maximum-7" : "") + "} x length 3..8 x suffix in sub-alphabet+none" + (T ? "; prefix x suffix additionally over all of V x V" : "") + "; two runs in a row; 5..8 values stepping by one across INT_MAX/INT_MIN (32 and 64 bit)");
+    vp::bound("runs", "prefix in sub-alphabet+none x run{i h c f d: delta 0,1,-1,3; T F: constant, alternating; s S constant" + std::string(T ? "; r N constant; starts 0, -2, type maximum-7" : "") + "} x length 3..8 x suffix in sub-alphabet+none" + (T ? "; prefix x suffix additionally over all of V x V" : "") + "; two runs in a row; two adjacent runs sharing their boundary value (all delta pairs, at list start / behind a value); runs whose first step wraps around the integer range; 5..8 values stepping by one across INT_MAX/INT_MIN (32 and 64 bit)");
     vp::bound("arrays", "every homogeneous array of length 0..4 over 3 values per element type (14 element types), alone and between scalars; arrays of 1..2 (thorough 3) arrays over 6 inner arrays; arrays holding a run of length 3..8 with an optional extra element");
     vp::bound("strings", "every string of length 0..3 over {a \" \\ \\n ' ' % 1} + identifiers + reserved words + one 130-char string, as s and S, alone and between neighbours");
     vp::bound("chars", T ? "every printable ASCII char and C escape, alone and every ordered pair" : "6 chars in V; every printable ASCII char and C escape alone");
@@ -483,6 +483,35 @@ int main(int argc, char **argv)
                                      wi2.push_back(pf::I((int32_t)((uint32_t)INT_MIN + 5 - k))); wh2.push_back(pf::H((int64_t)((uint64_t)INT64_MIN + 5 - k))); }
         for(const List *w : {&wi, &wh, &wi2, &wh2}) for(size_t from = 0; from < 4; ++from) for(size_t len = 5; from + len <= 8; ++len)
             do_list("run", idx++, List(w->begin() + from, w->begin() + from + len), FEW);
+    }
+    // two adjacent runs that share their boundary value (the second range starts where the first ended), at the very
+    // start of the list and behind one other value; all combinations of deltas +1 / -1 / 0 / +3, 32 and 64 bit, chars, floats
+    {
+        auto mkv = [](char k, long v) { return k == 'i' ? pf::I((int32_t)v) : k == 'h' ? pf::H(v) : k == 'c' ? pf::C((char)v) : k == 'f' ? pf::Fl((float)v) : pf::D((double)v); };
+        for(char k : {'i', 'h', 'c', 'f', 'd'}) for(long d1 : {1L, -1L, 0L, 3L}) for(long d2 : {1L, -1L, 0L, 3L}) for(int len1 : {5, 6}) for(int len2 : {5, 7}) {
+            long start = k == 'c' ? 80 : 10;
+            List L; long v = start;
+            for(int i = 0; i < len1; ++i) { L.push_back(mkv(k, v)); if(i + 1 < len1) v += d1; }
+            for(int i = 0; i < len2; ++i) { L.push_back(mkv(k, v)); v += d2; }     // first element repeats the boundary value
+            do_list("run", idx++, L, FEW);
+            List P{pf::Str("x")}; P.insert(P.end(), L.begin(), L.end()); do_list("run", idx++, P, FEW);
+            List Q{mkv(k, start)}; Q.insert(Q.end(), L.begin(), L.end()); do_list("run", idx++, Q, FEW);
+        }
+    }
+    // runs whose FIRST step wraps around the end of the integer range (the first difference is +-1 only modulo 2^n)
+    {
+        for(int bits : {32, 64}) for(int dir : {+1, -1}) for(int len = 5; len <= 8; ++len) for(int ctx = 0; ctx < 4; ++ctx) {
+            List L;
+            if(ctx == 1) L.push_back(pf::Str("x")); if(ctx == 2) L.push_back(pf::Fl(1.5f));
+            auto at = [&](int i) -> PV {
+                // dir=+1: MAX, MIN, MIN+1, ... ; dir=-1: MIN, MAX, MAX-1, ...
+                if(bits == 32) { uint32_t b = dir > 0 ? (uint32_t)INT_MAX : (uint32_t)INT_MIN; return pf::I((int32_t)(b + (uint32_t)(dir * i))); }
+                uint64_t b = dir > 0 ? (uint64_t)INT64_MAX : (uint64_t)INT64_MIN; return pf::H((int64_t)(b + (uint64_t)((int64_t)dir * i)));
+            };
+            if(ctx == 3) L.push_back(at(0));      // behind an equal value
+            for(int i = 0; i < len; ++i) L.push_back(at(i));
+            do_list("run", idx++, L, FEW);
+        }
     }
     if(!g_stop) g_fam_done += "run ";
     // ---- family "arr": homogeneous arrays
